@@ -57,8 +57,24 @@ class BareMove:
         if not ok:
             return 0
         atoms = context.atoms
+        if g(self, "kind") == "none":
+            return 0
         if g(self, "kind") == "cell":
             atoms.set_cell(atoms.cell.array * 1.01, scale_atoms=True)
+        elif g(self, "kind") == "swap":
+            # a user exchange move replacing a 1-atom particle by a 2-atom one: the particle number is
+            # unchanged, the atom count is not (bookkeeping as the shipped exchange moves do it)
+            from ase.atoms import Atoms as _Atoms
+
+            n = len(atoms)
+            if n == 0:
+                return 0
+            context._deleted_indices = np.array([0])
+            context._deleted_atoms += atoms[[0]]
+            del atoms[[0]]
+            atoms.extend(_Atoms("Ar2", positions=[[2.0, 2.0, 2.0], [2.0, 2.0, 3.0]]))
+            context._added_indices = np.array([len(atoms) - 2, len(atoms) - 1])
+            context._added_atoms += atoms[[len(atoms) - 2, len(atoms) - 1]]
         elif g(self, "kind") == "shear":  # volume-preserving change of the cell
             atoms.set_cell(np.array([[1.0, 0.03, 0.0], [0.0, 1.0, 0.0], [0.0, 0.0, 1.0]]) @ atoms.cell.array, scale_atoms=True)
         elif len(atoms):
@@ -78,6 +94,15 @@ class BareMove:
     @classmethod
     def from_dict(cls, data):
         return cls(**data.get("kwargs", {}))
+
+
+class ValueMove(BareMove):
+    """A user move with value semantics: all instances compare equal and none is hashable."""
+
+    def __eq__(self, other):
+        return isinstance(other, ValueMove)
+
+    __hash__ = None
 
 
 class BareCriteria:
@@ -130,6 +155,9 @@ def specs(tier):
     add("GrandCanonical", [["e", "E_trans"]], twice=True)
     add("GrandCanonical", [], in_composite="E")  # the user move sits inside a shipped composite with an exchange move
     add("Isobaric", [], in_composite="C")
+    add("GrandCanonical", [], bare_kind="swap")
+    add("Isobaric", [], bare_kind="cell", value_moves=True)
+    add("GrandCanonical", [["e", "E_trans"]], value_moves=True)
     add("Canonical", [["d", "D_ball"]], max_cycles=2)
     add("GrandCanonical", [["e", "E_trans"]], max_cycles=2)
     add("Isobaric", [["c", "C_iso"]], max_cycles=3, depth=1)
@@ -157,10 +185,11 @@ def make(spec, ch):
         sysm.mc, sysm.atoms, sysm.entries, sysm.leaves = mc, atoms, {}, []
         sysm.close = mc.close
     else:
-        sysm = build({k: v for k, v in spec.items() if k not in ("bare_kind", "depth", "twice", "cap", "in_composite")})
+        sysm = build({k: v for k, v in spec.items() if k not in ("bare_kind", "depth", "twice", "cap", "in_composite", "value_moves")})
     mc = sysm.mc
     install(mc, ChoiceRNG(ch, Policy(uniform_q=(0.3, 0.8), angular_q=None, product_limit=0, branch_calls=0)))
-    bm, bc = BareMove("user-move", spec["bare_kind"]), BareCriteria("user-criteria")
+    cls = ValueMove if spec.get("value_moves") else BareMove
+    bm, bc = cls("user-move", spec["bare_kind"]), BareCriteria("user-criteria")
     object.__setattr__(bm, "chooser", ch)
     object.__setattr__(bc, "chooser", ch)
     if spec.get("in_composite"):
@@ -173,6 +202,11 @@ def make(spec, ch):
         mc.add_move(CompositeMove([bm, partner]), criteria=bc, name="bare")
     else:
         mc.add_move(bm, criteria=bc, name="bare")
+    if spec.get("value_moves"):  # a second, distinct object that compares equal to the first
+        other = ValueMove("user-move-2", "none")
+        object.__setattr__(other, "chooser", ch)
+        mc.add_move(other, criteria=bc, name="bare-other")
+        sysm.other = other
     if spec.get("twice"):  # the same user object registered a second time (other name and cadence)
         mc.add_move(bm, criteria=bc, name="bare-again", interval=2)
     crits = {}
@@ -223,16 +257,12 @@ def task(spec):
         try:
             for step in mc.irun(depth):
                 for name in step:
+                    if records and records[-1][2] is None:
+                        records[-1][2] = _post(mc, atoms, bm, bc)
                     pre = {"n": len(atoms), "uid": atoms.arrays["uid"].copy(), "cell": atoms.cell.array.copy(), "notes": len(object.__getattribute__(bm, "notes")), "mcalls": object.__getattribute__(bm, "calls"), "ccalls": object.__getattribute__(bc, "calls")}
                     records.append([str(name), pre, None])
-                    if len(records) > 1 and records[-2][2] is None:
-                        records[-2][2] = _post(mc, atoms, bm, bc)
                 if records and records[-1][2] is None:
                     records[-1][2] = _post(mc, atoms, bm, bc)
-                uid = atoms.arrays["uid"]
-                z = np.flatnonzero(uid == 0)
-                if len(z):
-                    uid[z] = np.arange(1000 + 10 * len(records), 1000 + 10 * len(records) + len(z))
         except Exception as e:  # noqa: BLE001
             from qv.core import HarnessError
 
@@ -266,8 +296,9 @@ def task(spec):
             except Exception as e:  # noqa: BLE001
                 ser = (False, False, f"{type(e).__name__}: {e}"[:200])
         access = list(ACCESS)
+        other_notes = list(object.__getattribute__(sysm.other, "notes")) if hasattr(sysm, "other") else None
         sysm.close()
-        return records, err, ser, access, list(object.__getattribute__(bm, "notes"))
+        return records, err, ser, access, list(object.__getattribute__(bm, "notes")), other_notes
 
     only = spec.get("only")
     if only is not None:
@@ -275,8 +306,12 @@ def task(spec):
         gen = [(c, run(c))]
     else:
         gen = explore(run, stats=st)
-    for ch, (records, err, ser, access, notes) in gen:
+    for ch, (records, err, ser, access, notes, other_notes) in gen:
         counters["executions"] += 1
+        if other_notes is not None and not err:
+            rel = lambda ns: [n for n in ns if n[0] == "cell" or n[1] or n[2]]  # noqa: E731
+            if len(rel(other_notes)) != len(rel(notes)):
+                V(f"C20/{ens}/equal-comparing-user-moves-not-both-notified", f"two distinct user moves that compare equal received {len(rel(notes))} and {len(rel(other_notes))} change notifications", ch)
         if err:
             V(f"C20/{ens}/exception:{err[0]}@{err[2]}", f"{err[1]}; table bare+{[e[1] for e in spec['table']]}", ch)
             continue
@@ -321,8 +356,8 @@ def task(spec):
             atom_notes = [n for n in new if n[0] == "atoms" and (n[1] or n[2])]
             cell_notes = [n for n in new if n[0] == "cell"]
             if count_changed:
-                added = list(range(pre["n"], post["n"])) if post["n"] > pre["n"] else []
-                removed = [int(i) for i in np.flatnonzero(~np.isin(pre["uid"], post["uid"]))] if post["n"] < pre["n"] else []
+                added = [int(i) for i in np.flatnonzero(post["uid"] == 0)]  # new atoms carry a zero marker until the step ends
+                removed = [int(i) for i in np.flatnonzero(~np.isin(pre["uid"], post["uid"]))]
                 if len(atom_notes) != 1:
                     V(f"C20/{ens}/atom-count-change-notified-{len(atom_notes)}-times", f"accepted {name} changed the atom count {pre['n']}->{post['n']}", ch)
                 elif atom_notes[0][1] != added or atom_notes[0][2] != removed:
@@ -340,8 +375,16 @@ def task(spec):
     return {"counters": counters, "violations": viol, "sets": {"outcomes": [":".join(o) for o in outcomes]}, "samples": []}
 
 
+_UID = [1000]
+
+
 def _post(mc, atoms, bm, bc):
-    return {"n": len(atoms), "uid": atoms.arrays["uid"].copy(), "cell": atoms.cell.array.copy(), "notes": len(object.__getattribute__(bm, "notes")), "mcalls": object.__getattribute__(bm, "calls"), "ccalls": object.__getattribute__(bc, "calls"), "verdict": mc.move_history[-1][1] if mc.move_history else "none"}
+    snap_uid = atoms.arrays["uid"].copy()
+    z = np.flatnonzero(atoms.arrays["uid"] == 0)
+    if len(z):  # fresh markers right after the trial (several trials may share a step)
+        atoms.arrays["uid"][z] = np.arange(_UID[0], _UID[0] + len(z))
+        _UID[0] += len(z)
+    return {"n": len(atoms), "uid": snap_uid, "cell": atoms.cell.array.copy(), "notes": len(object.__getattribute__(bm, "notes")), "mcalls": object.__getattribute__(bm, "calls"), "ccalls": object.__getattribute__(bc, "calls"), "verdict": mc.move_history[-1][1] if mc.move_history else "none"}
 
 
 def run(tier, seed):
